@@ -321,7 +321,7 @@ def run(ctx):
     if ctx.thorough:
         jobs = [{'n': 60, 'shrink': True, 'fixed': FIXED if i == 0 else []} for i in range(16)]
     else:
-        jobs = [{'n': 6, 'shrink': False, 'fixed': [FIXED[i]] if i < len(FIXED) else []} for i in range(8)]
+        jobs = [{'n': 10, 'shrink': False, 'fixed': [FIXED[i]] if i < len(FIXED) else []} for i in range(12)]
     parallel(ctx, shard, jobs)
 
 
